@@ -181,6 +181,11 @@ class Check(FormulaCheck):
         for _ in range(spec['n']):
             n = rnd.choice([0, 1, 2, 5, 20, 60, rnd.randint(0, 60)])
             s = ''.join(rnd.choice(self.ALPHA) for _ in range(n))
+            if rnd.random() < 0.15:
+                # accented letters written the OTHER way (decomposed, compatibility forms, singletons): a literal is its characters, not
+                # their normal form
+                k = rnd.randrange(len(s) + 1)
+                s = s[:k] + rnd.choice(['e\u0301', 'A\u030a', '\u212b', '\u2126', '\uf900', '=\u0338', '\u1112\u1161\u11ab', 'n\u0303o', '\ufb01', '\u00e9\u0301', 'o\u0308\u0304', '\u1e9b\u0323']) + s[k:]
             q = rnd.choice('"\'')
             s = s.replace(q, rnd.choice(['', 'q']))          # contents never contain the delimiting quote
             ctx = rnd.choice(['whole', 'arg', 'array', 'amp', 'arg-first', 'paren'])
